@@ -18,6 +18,7 @@ import (
 	"os"
 	"runtime"
 	"sort"
+	"strconv"
 	"strings"
 	"sync"
 	"sync/atomic"
@@ -50,11 +51,20 @@ type clog struct {
 	mu  sync.Mutex
 	out *bufio.Writer
 	win []string
+	// direct: observations are written at once instead of per window (racing mode, where there
+	// are no windows; the order of the log lines is then the order of this mutex)
+	direct bool
 }
 
 func (l *clog) obs(format string, args ...any) {
 	l.mu.Lock()
-	l.win = append(l.win, "o\t"+fmt.Sprintf(format, args...))
+	if l.direct {
+		l.out.WriteString("o\t" + fmt.Sprintf(format, args...))
+		l.out.WriteByte('\n')
+		l.out.Flush()
+	} else {
+		l.win = append(l.win, "o\t"+fmt.Sprintf(format, args...))
+	}
 	l.mu.Unlock()
 }
 
@@ -188,6 +198,12 @@ type cchan struct {
 
 	sending, recving, closing atomic.Int32
 	tryLock                   func() bool
+
+	// racing mode: race = the log is direct and Send/Close stay inside for a few yields; auto = the
+	// peer answers every request it receives at once (from inside Send) with a result of its own
+	race  bool
+	auto  atomic.Bool
+	autoN atomic.Int64
 }
 
 func newCchan(log *clog, unblock bool) *cchan {
@@ -233,18 +249,68 @@ func (c *cchan) Send(b []byte) error {
 	if c.tryLock != nil && c.tryLock() {
 		c.fault("Send called without holding the client's mutex")
 	}
+	if c.race {
+		// stay inside Send for a while so that an unserialised second user of the channel overlaps
+		for i := 0; i < 3; i++ {
+			runtime.Gosched()
+		}
+	}
 	c.mu.Lock()
 	ok := !c.isClosed && !c.failSend
 	line, ids := canonCliSend(b, ok)
+	if c.race {
+		// racing mode: the record is in the log before the scenario can see its ids (and answer them)
+		c.log.obs("%s", line)
+	}
 	if ok {
 		c.seen = append(c.seen, ids...)
 	}
 	c.mu.Unlock()
-	c.log.obs("%s", line)
+	if !c.race {
+		c.log.obs("%s", line)
+	}
 	if !ok {
 		return cErrSendFail
 	}
+	if c.race && c.auto.Load() {
+		c.autoReply(ids)
+	}
 	return nil
+}
+
+// autoReply (racing mode) is the instant peer: the replies to the requests of a record are fed
+// while the client is still inside Send, i.e. before it has registered the requests as pending.
+func (c *cchan) autoReply(ids []string) {
+	if len(ids) == 0 {
+		return
+	}
+	var ms []cmember
+	for _, id := range ids {
+		ms = append(ms, cmResult(id, fmt.Sprintf(`{"auto":%d}`, c.autoN.Add(1))))
+	}
+	if len(ms) > 1 && c.autoN.Load()%2 == 0 {
+		// each reply in a record of its own, in reverse order
+		for i := len(ms) - 1; i >= 0; i-- {
+			c.feedMembers(false, ms[i:i+1])
+		}
+		return
+	}
+	c.feedMembers(len(ms) > 1, ms)
+}
+
+// feedMembers logs and feeds one well-formed record (the log line precedes the feed).
+func (c *cchan) feedMembers(batch bool, ms []cmember) {
+	var wires, logs []string
+	for _, m := range ms {
+		wires = append(wires, m.wire)
+		logs = append(logs, m.log())
+	}
+	data := wires[0]
+	if batch {
+		data = "[" + strings.Join(wires, ",") + "]"
+	}
+	c.log.item("env\tfeed\tmsg\t%s\t%s\t%s", cbit(batch), strings.Join(logs, ";"), chex(data))
+	c.feeds <- cfeed{[]byte(data), nil}
 }
 
 func (c *cchan) Close() error {
@@ -257,6 +323,11 @@ func (c *cchan) Close() error {
 	defer c.closing.Add(-1)
 	if c.tryLock != nil && c.tryLock() {
 		c.fault("Close called without holding the client's mutex")
+	}
+	if c.race {
+		for i := 0; i < 3; i++ {
+			runtime.Gosched()
+		}
 	}
 	c.mu.Lock()
 	c.nclose++
@@ -498,6 +569,57 @@ type cliRun struct {
 	faults    []string
 	baseGor   int
 	sendFail  bool
+
+	// racing mode (policy "race"): no scheduler, environment actions are not separated by quiescence
+	// (quiet turns the waiting back on), the hook points and the client's Logger only perturb the Go
+	// scheduler, the log is written directly
+	race, quiet bool
+	perturb     atomic.Uint64
+}
+
+func (r *cliRun) rnd() uint64 {
+	x := r.perturb.Add(0x9e3779b97f4a7c15)
+	x ^= x >> 30
+	x *= 0xbf58476d1ce4e5b9
+	x ^= x >> 27
+	x *= 0x94d049bb133111eb
+	x ^= x >> 31
+	return x
+}
+
+func cyield(n int) {
+	for i := 0; i < n; i++ {
+		runtime.Gosched()
+	}
+}
+
+// racePoint is the hook of racing mode: yield at a pseudo-random subset of the points.
+func (r *cliRun) racePoint(site string) {
+	switch x := r.rnd(); x % 8 {
+	case 0, 1:
+		cyield(1)
+	case 2:
+		cyield(3)
+	case 3:
+		cyield(int(x>>8) % 24)
+	}
+}
+
+// raceLogger is the client's Logger in racing mode. The library logs inside its critical
+// sections; a logger that takes its time widens every window that contains a log call (and so
+// exposes work that was moved out of a critical section).
+func (r *cliRun) raceLogger(string) {
+	switch x := r.rnd(); x % 8 {
+	case 0:
+	case 1, 2:
+		cyield(1 + int(x>>8)%3)
+	case 3, 4:
+		cyield(4 + int(x>>8)%12)
+	case 5, 6:
+		cyield(16 + int(x>>8)%48)
+	case 7:
+		cyield(64 + int(x>>8)%256)
+	}
 }
 
 func (r *cliRun) fault(f string) {
@@ -605,6 +727,10 @@ func (r *cliRun) start() {
 			}
 		}
 	}
+	if r.race {
+		opts.Logger = r.raceLogger
+		r.ch.race = true
+	}
 	r.baseGor = numGor()
 	r.cli = jrpc2.NewClient(r.ch, opts)
 	r.ch.tryLock = r.cli.VerifTryLock
@@ -613,8 +739,19 @@ func (r *cliRun) start() {
 }
 
 func (r *cliRun) settleEnv() {
+	if r.race && !r.quiet {
+		return
+	}
 	synctest.Wait()
 	r.log.flush()
+}
+
+// settle (racing mode) waits for quiescence and records the quiescent point: the client's mutex
+// must be free there, and "snap" tells the monitors that everything that could happen has happened.
+func (r *cliRun) settle() {
+	synctest.Wait()
+	r.log.flush()
+	r.snapshot()
 }
 
 func specsLog(specs []cspec) string {
@@ -825,6 +962,12 @@ func (r *cliRun) ctxDeadline(op *cliOp) {
 	op.ended = true
 	r.mu.Unlock()
 	r.log.item("env\tctxend\t%d\tdeadline", op.n)
+	if r.race && !r.quiet {
+		// racing mode: wake up at the very instant of the deadline, so that what the scenario does
+		// next races with the context's watcher
+		time.Sleep(time.Until(op.deadline))
+		return
+	}
 	time.Sleep(time.Until(op.deadline) + time.Millisecond)
 	r.settleEnv()
 }
@@ -916,8 +1059,19 @@ func runCliScenario(t *testing.T, fam string, seed uint64, idx int, out *bufio.W
 	}
 	cfg := cliConfig{unblock: g.chance(2, 3), onCancel: g.chance(2, 3), onNotify: g.chance(2, 3), onCallback: g.chance(2, 3)}
 	policy := "random"
+	tier := os.Getenv("VERIF_TIER")
 	if idx%3 == 0 {
 		policy = "fifo"
+	} else if idx%6 == 5 && !(f.name == "c04" && tier == "thorough" && idx < cliExhaustive) {
+		policy = "race"
+	}
+	if p := os.Getenv("VERIF_CLI_POLICY"); p != "" {
+		policy = p // for experiments: force one policy on every scenario
+	}
+	if policy == "race" && (idx/6)%2 == 0 {
+		// half of the racing scenarios on one processor (a yield hands over to the next runnable
+		// goroutine), half with real parallelism
+		defer runtime.GOMAXPROCS(runtime.GOMAXPROCS(1))
 	}
 	var r *cliRun
 	var wmu sync.Mutex
@@ -939,8 +1093,17 @@ func runCliScenario(t *testing.T, fam string, seed uint64, idx int, out *bufio.W
 	defer wd.Stop()
 	synctest.Test(t, func(t *testing.T) {
 		r = newCliRun(cfg, out)
-		s := &cliScen{r: r, g: g, f: f, policy: policy, tier: os.Getenv("VERIF_TIER")}
-		jrpc2.VerifSetHook(r.sc.point)
+		s := &cliScen{r: r, g: g, f: f, policy: policy, tier: tier}
+		if policy == "race" {
+			r.race = true
+			r.log.direct = true
+			r.sc.on = false
+			attempt, _ := strconv.ParseUint(os.Getenv("VERIF_RACE_ATTEMPT"), 10, 64)
+			r.perturb.Store(seed*7919 + uint64(idx) + attempt*0x51ed27)
+			jrpc2.VerifSetHook(r.racePoint)
+		} else {
+			jrpc2.VerifSetHook(r.sc.point)
+		}
 		defer jrpc2.VerifSetHook(nil)
 		r.log.item("scenario\t%s\t%d\t%d\t%s", fam, seed, idx, policy)
 		aborted := ""
